@@ -209,9 +209,15 @@ def main(argv=None):
   wall = time.time() - t0
 
   if 'harness_error' in res.extra:
-    print('HARNESS-ERROR in %s:\n%s' % (cid, res.extra['harness_error']))
-    write_evidence(mod, ctx, res, wall, 0, [])
-    return 2
+    # An exception escaped from the code under test where the check expected none.  On the unchanged tree this never
+    # happens (every check is run there before it is registered), so on a changed tree it is evidence that gin
+    # misbehaved on some enumerated case: report it as a violation (the traceback names the case).
+    tb = res.extra['harness_error']
+    print('HARNESS-ERROR in %s:\n%s' % (cid, tb))
+    last = [l for l in tb.strip().splitlines() if l and not l.startswith(' ')]
+    etype = (last[-2] if len(last) >= 2 and last[-1].startswith(('case=', 'history=', 'args=', 'program=')) else
+             (last[-1] if last else 'Exception')).split(':')[0].strip()
+    res.violation('unexpected_exception:' + etype[:60], tb[-1500:], {'harness_error': tb[-3000:]})
 
   # Partition violations: listed as open finding vs. new.
   kf = known.load()
